@@ -46,6 +46,35 @@ def fcost (id f : Nat) : LinCost :=
 
 def semUnmodelled : Sem := fun _ _ _ => .error .unmodelled
 
+/-- the harness's deterministic filler (verifC31Fill) -/
+def fill (n : Nat) : List Nat := (List.range n).map (fun i => (i * 7 + n) % 251)
+
+/-- `E<ap0>:<cl0>:<ap1>:<cl1>:<note>:<apparg>:<ledgerap>` -/
+def parseEnv (fs : List String) : Option (List Nat) :=
+  match fs[9]? with
+  | some t => if t.startsWith "E" then some (((t.drop 1).toString.splitOn ":").map nat!) else none
+  | none => none
+
+/-- the driver's `sem`: everything outside the modelled family is `unmodelled`, except the scalar `txn <field>` of the three
+    byte fields the harness environment can make large (ApprovalProgram, ClearStateProgram, Note of the transaction being
+    evaluated): it pushes the field value after the field's version / mode gate (Model.OpTables.fieldGate). This puts
+    long values produced by an `any`-typed op in front of step's post-check in the correspondence run. -/
+def semEnv (env : Option (List Nat)) (v mode : Nat) : Sem := fun s stk imm =>
+  if s.fn != "opTxn" then .error .unmodelled else
+  match env, imm, s.imms with
+  | some e, [f], [im] =>
+    match findGroup Gen.OpTable.fieldGroups im.group with
+    | none => .error .unmodelled
+    | some g =>
+      match fieldGate g v mode f with
+      | .pass =>
+        let name := (g.fields[f]?.map (·.name)).getD ""
+        let len := if name = "ApprovalProgram" then e[0]?.getD 0 else if name = "ClearStateProgram" then e[1]?.getD 0
+                   else if name = "Note" then e[4]?.getD 0 else 0
+        if len = 0 then .error .unmodelled else .ok (.b (fill len) :: stk)
+      | _ => .error .op
+  | _, _, _ => .error .unmodelled
+
 def showVal : Val → String
   | .u n => toString n
   | .b bs => "x" ++ toHex bs
@@ -59,6 +88,7 @@ def parseArgs (s : String) : Option (List (List Nat)) :=
 /-- the optional 10th field (transaction environment) only matters to ops outside the modelled family -/
 def handle (line : String) : String :=
   let body := (line.splitOn "#").head!
+  let env := parseEnv (fields body)
   match (fields body).take 9 with
   | [kind, mode, bk, maxcost, pool, lsv, minv, hex, args] =>
     let m := if mode = "sig" then modeSig else modeApp
@@ -75,7 +105,8 @@ def handle (line : String) : String :=
       | .error (e, pc) => s!"chk={e.toString}@{pc}"
     else if kind = "eval" then
       if cfg.isolate && poolV < (cfg.maxCost : Int) then "ev=refused cost=0 steps=0 stack=-" else
-      match eval (concreteExec semUnmodelled) cfg prog poolV with
+      let v := match begin cfg prog with | .ok (v, _) => v | .error _ => 0
+      match eval (concreteExec (semEnv env v m)) cfg prog poolV with
       | none => "ev=NONTERM"
       | some f =>
         match f.verdict with
